@@ -564,6 +564,9 @@ def rules(ctx):
     r5_proxy(ctx)
     # "invalid definitions are refused": every submission is judged on its own - nothing computed for one graph (a memo of orders / path
     # matrices filled before the refusal) is served to a later submission of the same definitions (same rule as C13.R5 / C01.R9)
+    from ._shared import named_parameters_form
+    named_parameters_form(ctx, "C15.R9", "the edges of the graph are the declared inputs of each definition - an input that is left out is a missing edge, so the transitive dependents and "
+                          "ancestors listed for it are wrong")
     from .c13 import r5_shared_defaults
     r5_shared_defaults(ctx, rid="C15.R8", scope="leaspy.variables.dag", title="no module-level / class-level memo in the graph construction (each submission is checked on its own)")
     ctx.trust("sorted() on strings; SimpleQueue FIFO; torch boolean indexing / nonzero order")
